@@ -42,7 +42,7 @@ KW = dict(clear_cache_every_nbr_calc=10**6)
 @st.composite
 def weyl_case(draw):
     c = draw(cases.spacetime_case(
-        kinds=("Wp", "Wp", "Wp", "Wn", "KS", "PP", "F", "Wt0"),
+        kinds=("Wp", "Wp", "Wp", "Wn", "KS", "PP", "F", "Wt0", "KSin"),
         orders_p=(2, 4, 4, 6), orders_n=(2, 4), np_range=(10, 12)))
     fam = c["spec"]["family"]
     c["form"] = draw(st.sampled_from(["components", "tensors"]))
@@ -119,7 +119,8 @@ def _classes(note, case, ex):
     note.cls(fam, case["boundary"], f"p={case['order']}",
              f"mask={case.get('mask')}", f"nshift={fl['nshift']}",
              f"vac={case['vacuum']}", f"matter={case['matter']}",
-             "Ricci!=0" if ric > 1e-6 else "Ricci=0")
+             "Ricci!=0" if ric > 1e-6 else "Ricci=0",
+             *A.extra_classes(case, ex))
 
 
 def test_weyl(case, note):
@@ -198,7 +199,7 @@ def test_weyl(case, note):
 @st.composite
 def tetrad_case(draw):
     c = draw(cases.spacetime_case(
-        kinds=("Wp", "Wp", "Wn", "KS", "PP"), orders_p=(2, 4),
+        kinds=("Wp", "Wp", "Wn", "KS", "PP", "KSin"), orders_p=(2, 4),
         orders_n=(2, 4), np_range=(8, 10)))
     c["form"] = draw(st.sampled_from(["components", "tensors"]))
     c["matter"] = "none"
@@ -397,6 +398,11 @@ def generic_weyl():
                     matter="none", vacuum=True, kw=KW))
     out.append(dict(cases.generic_PP(2), Lambda=0.0, form="tensors",
                     matter="none", vacuum=False, kw=KW))
+    # Einstein's constant set to 1 (documented attribute), matter scaled
+    out.append(dict(cases.generic_W(4), Lambda=0.15, form="components",
+                    matter="Tdown4", vacuum=False, kw=KW, kappa=1.0))
+    out.append(dict(cases.generic_KSin(4), Lambda=0.0, form="components",
+                    matter="none", vacuum=False, kw=KW))
     return out
 
 
@@ -424,12 +430,12 @@ def generic_tetrads():
 def subchecks(tier):
     q = tier == "quick"
     return [
-        Sub("weyl", weyl_case(), test_weyl, 16 if q else 1000,
+        Sub("weyl", weyl_case(), A.asymptotic(test_weyl), 16 if q else 1000,
             generic=generic_weyl(), shards=8 if q else 16, max_rounds=2,
             shrink_quick=False, pregenerate=True),
         Sub("tetrad", tetrad_case(), test_tetrad, 48 if q else 3000,
             generic=generic_tetrads(), shards=4 if q else 8, max_rounds=2),
-        Sub("scalars", scalar_case(), test_scalars, 12 if q else 600,
+        Sub("scalars", scalar_case(), A.asymptotic(test_scalars), 12 if q else 600,
             generic=generic_scalars(), shards=8 if q else 16, max_rounds=2,
             shrink_quick=False, pregenerate=True),
     ]
